@@ -508,6 +508,14 @@ func (r *c27Run) moves(kind string) []c27Move {
 				out = append(out, c27Move{"close", s})
 			}
 		}
+	case "sig":
+		// SIGTERM to a daemon in its serve loop (only used by fixed regression
+		// schedules, never generated: it legitimately cuts off that daemon's clients)
+		for _, d := range r.daemons {
+			if d.state == c27Auto {
+				out = append(out, c27Move{"sig", d})
+			}
+		}
 	}
 	return out
 }
@@ -557,6 +565,17 @@ func (r *c27Run) perform(m c27Move) bool {
 		r.seq++
 		r.mu.Unlock()
 		m.a.cmd <- "activate"
+	case "sig":
+		r.mu.Lock()
+		m.a.state = c27Running
+		r.record(c27Ev{Actor: m.a.name, Kind: "signal", Note: "schedule"})
+		r.seq++
+		r.mu.Unlock()
+		select {
+		case m.a.sig <- syscall.SIGTERM:
+		default:
+		}
+		quiet = c27QuietLong
 	case "op", "close":
 		r.mu.Lock()
 		m.a.state = c27Running
@@ -1143,6 +1162,28 @@ var c27UnlinkRace = []c27Step{
 	{"go", 1},    // D1 closes its listener: second unlink
 }
 
+// c27LateIdentityRace: like c27StaleRace, but S2 replaces D1's socket while D1
+// is between Listen and opening the database; D1 later gets SIGTERM while D2
+// is live. D1 must know which socket file is its own from the moment it
+// listened, and must leave D2's socket alone (regression schedule for
+// "removes only the socket it created"; only sentence 4 decides).
+var c27LateIdentityRace = []c27Step{
+	{"start", 0}, // S1: detect -> connection refused
+	{"start", 0}, // S2: detect -> connection refused
+	{"go", 0},    // S1 -> before-remove-stale
+	{"go", 0},    // S1 removes the stale socket -> before-spawn
+	{"go", 0},    // S1 spawns D1 -> poll
+	{"go", 2},    // D1 listens, parked before opening the database
+	{"go", 1},    // S2 -> before-remove-stale
+	{"go", 1},    // S2 removes D1's socket -> before-spawn
+	{"go", 1},    // S2 spawns D2 -> poll
+	{"go", 3},    // D2 listens on the free path, parked before opening the database
+	{"go", 2},    // D1 opens the database
+	{"go", 2},    // D1 serves (nobody can reach it)
+	{"sig", 0},   // SIGTERM to D1 -> before-remove-socket
+	{"go", 2},    // D1's removal step: must not remove D2's socket
+}
+
 func init() {
 	vs.Register(vs.Prop[c27Case]{
 		Name: "C27/schedules",
@@ -1161,6 +1202,7 @@ func init() {
 		Known: []vs.Known[c27Case]{
 			{Key: c27KeyStale, Case: c27Case{Init: "stale", Shells: 2, Steps: c27StaleRace}},
 			{Key: c27KeyExit, Case: c27Case{Init: "stale", Shells: 2, Steps: c27StaleRace, Only: 4}},
+			{Key: c27KeyExit, Case: c27Case{Init: "stale", Shells: 2, Steps: c27LateIdentityRace, Only: 4}},
 			{Key: c27KeyUnlink, Case: c27Case{Init: "fresh", Shells: 2, Steps: c27UnlinkRace}},
 		},
 	})
